@@ -9,7 +9,10 @@
 // execution is totally ordered and a pure function of the switch list.
 package simrt
 
-import "runtime"
+import (
+	"runtime"
+	"time"
+)
 
 const MaxTasks = 16
 
@@ -43,6 +46,9 @@ var (
 	lastSite [MaxTasks]uint32 // running task
 	tsteps   [MaxTasks]uint64 // running task: steps executed by task
 	tbudget  uint64           // per-task step budget while scheduler active
+
+	stalls      uint64 // scheduled runs in which the running task blocked on another task
+	freeRun     bool   // after repeated stalls: tasks of later runs are released together
 
 	foreign     bool   // the code under test started a goroutine of its own during this run
 	foreignRuns uint64 // scheduled runs in which that happened
@@ -250,6 +256,59 @@ func reset(n int, taskBudget uint64) {
 //go:norace
 func deactivate() { active = false; tbudget = 0 }
 
+// stallLimit: how long the scheduler waits for the task it released.  A task
+// on this workload runs for milliseconds; only a task that is blocked on a
+// parked one takes longer.
+const stallLimit = 4 * time.Second
+
+//go:norace
+func awaitAck(t int, g uint64) bool {
+	var start time.Time
+	for spins := 1; ack[t] != g; spins++ {
+		runtime.Gosched()
+		if spins%4096 == 0 {
+			if start.IsZero() {
+				start = time.Now()
+			} else if time.Since(start) > stallLimit {
+				return false
+			}
+		}
+	}
+	return true
+}
+
+//go:norace
+func releaseAll(n int) {
+	foreign = true // nobody parks any more
+	stalls++
+	if stalls >= 2 {
+		freeRun = true
+	}
+	for i := 0; i < n; i++ {
+		if done[i] == 0 {
+			grant[i]++
+		}
+	}
+	for i := 0; i < n; i++ {
+		for done[i] == 0 {
+			runtime.Gosched()
+		}
+	}
+}
+
+// FreeRunning reports whether the scheduled run in progress has given up
+// hand-off (library-internal goroutines, or a task blocked on a parked task):
+// Current() no longer identifies the caller then.
+//
+//go:norace
+func FreeRunning() bool { return active && foreign }
+
+// Stalls is the number of scheduled runs that had to be finished
+// free-running because a task blocked on a parked task.
+//
+//go:norace
+func Stalls() uint64 { return stalls }
+
 const maxPreemptLog = 4096
 
 // schedule is the scheduler loop.  It runs on the caller's goroutine; the
@@ -262,6 +321,12 @@ func schedule(n int, list []SwitchEntry) SchedResult {
 	nlog := 0
 	prev := -1
 	li := 0
+	if freeRun {
+		// this process has met code under test that makes its callers wait
+		// for each other: no hand-off for the rest of the process
+		releaseAll(n)
+		return res
+	}
 	for {
 		// pick next entry whose task is not done
 		t := -1
@@ -301,8 +366,16 @@ func schedule(n int, list []SwitchEntry) SchedResult {
 		cur = t
 		g := grant[t] + 1
 		grant[t] = g
-		for ack[t] != g {
-			runtime.Gosched()
+		if !awaitAck(t, g) {
+			// The running task neither parked nor finished for stallLimit of
+			// wall clock: it is blocked inside the code under test waiting for
+			// something only a PARKED task can do (a library that coordinates
+			// its callers: single-flight, a condition variable, a channel).
+			// Hand-off cannot continue; release everybody and let the
+			// scenario finish free-running (results and race reports stay
+			// valid, the interleaving is no longer the scheduler's).
+			releaseAll(n)
+			break
 		}
 	}
 	res.Consumed = li
